@@ -2,6 +2,7 @@
 // Reached from libnstd + harness objects through symbol redirection; descriptors it did not create pass through to the kernel.
 // Compiled WITHOUT instrumentation.
 #include "net_internal.hpp"
+namespace simfs { bool active(); bool isFileFd(int fd); ssize_t fsWrite(int fd, const void* b, size_t n); ssize_t fsRead(int fd, void* b, size_t n); int fsClose(int fd); }
 #include <sys/socket.h>
 #include <sys/epoll.h>
 #include <sys/eventfd.h>
@@ -298,15 +299,15 @@ ssize_t __wrap_recv(int fd, void* buf, size_t n, int flags) {
   HostG h; return fileRead(fd, f, buf, n);
 }
 ssize_t __wrap_write(int fd, const void* buf, size_t n) {
-  File* f = inTask() ? lookup(fd) : 0; if (!f) return write(fd, buf, n);
+  File* f = inTask() ? lookup(fd) : 0; if (!f) { if (simfs::active() && simfs::isFileFd(fd)) return simfs::fsWrite(fd, buf, n); return write(fd, buf, n); }
   HostG h; return fileWrite(fd, f, buf, n);
 }
 ssize_t __wrap_read(int fd, void* buf, size_t n) {
-  File* f = inTask() ? lookup(fd) : 0; if (!f) return read(fd, buf, n);
+  File* f = inTask() ? lookup(fd) : 0; if (!f) { if (simfs::active() && simfs::isFileFd(fd)) return simfs::fsRead(fd, buf, n); return read(fd, buf, n); }
   HostG h; return fileRead(fd, f, buf, n);
 }
 int __wrap_close(int fd) {
-  if (!inTask() || !lookup(fd)) return close(fd);
+  if (!inTask() || !lookup(fd)) { if (simfs::isFileFd(fd)) return simfs::fsClose(fd); return close(fd); }
   HostG h; return fileClose(fd);
 }
 int __wrap_fcntl(int fd, int cmd, ...) {
